@@ -152,11 +152,11 @@ def instances(tier):
     # --- extract of zero_extend, merging of extensions
     for w in (1, 2, 3, 4):
         env = {'x': bvsort(w), 'y': bvsort(w)}
-        xs = ['x', ['bvadd', 'x', 'y']] + bv_consts(w)[:2]
+        xs = ['x', 'y', ['bvadd', 'x', 'y'], ['bvnot', 'x']] + bv_consts(w)[:6]
         for k in (1, 2, 3):
             for i in range(w + k):
                 for j in range(i + 1):
-                    for x in xs[:2 if not thorough else 4]:
+                    for x in xs[:4 if not thorough else 8]:
                         yield term_case(
                             'BVExtractZeroExtend',
                             [['_', 'extract', str(i), str(j)],
@@ -219,6 +219,11 @@ def instances(tier):
                 yield term_case('BoolDeMorgan', ['not', [op, a, b, 'p1']],
                                 benv)
             yield term_case('BoolDeMorgan', ['not', ['and', a]], benv)
+            for c in boolpool:
+                yield term_case('BoolDeMorgan', ['not', ['or', a, b, c]],
+                                benv)
+                yield term_case('BoolDeMorgan', ['not', ['and', a, b, c]],
+                                benv)
             yield term_case('BoolXOREliminateBinary', ['xor', a, b], benv)
             yield term_case('BoolEliminateImplication', ['=>', a, b], benv)
             yield term_case('BoolEliminateFalseEquality',
@@ -241,6 +246,14 @@ def instances(tier):
             for b in intpool:
                 yield term_case('ArithmeticNegateRelation',
                                 ['not', [rel, a, b]], ienv)
+    renv = {'r1': 'Real', 'r2': 'Real'}
+    realpool = ['r1', 'r2', '0.0', '2.5', ['+', 'r1', '1.5'],
+                ['/', 'r1', '2.0']]
+    for rel in ('=', '<', '>', '>=', '<=', 'distinct'):
+        for a in realpool:
+            for b in realpool:
+                yield term_case('ArithmeticNegateRelation',
+                                ['not', [rel, a, b]], renv)
     for rel in ('=', 'distinct'):
         for a, b in itertools.product(boolpool[:4], repeat=2):
             yield term_case('ArithmeticNegateRelation', ['not', [rel, a, b]],
@@ -261,6 +274,21 @@ def instances(tier):
                       body]]
             yield term_case('InlineDefinedFuns', ['f', A, B], genv, funs,
                             extra)
+    bodies3 = [['-', ['+', 'a', 'b'], 'c'], ['ite', ['<', 'a', 'b'], 'c',
+                                            'a'], ['*', 'c', ['-', 'b', 'a']]]
+    act3 = ['a', 'b', 'c', ['+', 'c', 'a'], '2']
+    genv3 = {'a': 'Int', 'b': 'Int', 'c': 'Int'}
+    for body in bodies3:
+        for A, B, C in itertools.product(act3, repeat=3):
+            funs = {'f3': (['a', 'b', 'c'], body,
+                           (['Int', 'Int', 'Int'], 'Int'))}
+            extra = [['define-fun', 'f3', [['a', 'Int'], ['b', 'Int'],
+                                           ['c', 'Int']], 'Int', body]]
+            yield term_case('InlineDefinedFuns', ['f3', A, B, C], genv3,
+                            funs, extra)
+            # call nested in a call: only the outer node is inlined
+            yield term_case('InlineDefinedFuns',
+                            ['f3', ['f3', A, B, C], B, A], genv3, funs, extra)
     for body in (['+', 'n1', '1'], 'n1', ['h', 'a']):
         funs = {'c': ([], body, ([], 'Int')),
                 'h': (['b'], ['*', 'b', '2'], (['Int'], 'Int'))}
@@ -279,6 +307,15 @@ def instances(tier):
             yield term_case('LetSubstitution',
                             ['>', ['let', [['x', t1], ['y', t2]], body],
                              '0'], genv, note='let')
+    for t1, t2, t3 in itertools.product(['a', 'n1', ['+', 'b', '1'], 'z'],
+                                        repeat=3):
+        for body in (['+', 'x', ['-', 'y', 'z']],
+                     ['let', [['z', 'x']], ['+', 'z', 'y']]):
+            env3 = dict(genv)
+            env3['z'] = 'Int'
+            yield term_case('LetSubstitution',
+                            ['>', ['let', [['x', t1], ['y', t2], ['z', t3]],
+                                   body], '0'], env3, note='let')
     for t1, t2 in itertools.product(['a', 'b', ['+', 'b', '1']], repeat=2):
         for body in (['-', 'a', 'b'], ['+', 'a', 'a']):
             yield term_case('LetSubstitution',
@@ -523,4 +560,17 @@ def replay(rec):
     _init()
     r = rec['record']
     print(r['brief'])
+    # find the recorded instance again (scripts are regenerated
+    # deterministically) and re-run it
+    part = common.part_result()
+    for tier in ('quick', 'thorough'):
+        for case in instances(tier):
+            if case is not None and case.mutator == r['mutator'] and \
+                    case.script == r['script'] and \
+                    list(case.path) == r['path']:
+                run_case(part, case)
+                for v in part['violations'][:5]:
+                    print('FAIL', v[1]['brief'][:300])
+                return 1 if part['violations'] else 0
+    print('instance not found in the current enumeration')
     return 1
